@@ -130,6 +130,9 @@ def run(ctx):
     ti = m.own_method("parser.Contentline.to_ical")
     strmodel.report(ctx, "C06/PHYS-MODEL", strmodel.explore_physical, strmodel.PHYS_LAWS,
                     ti.loc(), 100, select=lambda law: law != "invariance")
+    # the same laws end to end: properties of every value family through Component.add/to_ical
+    strmodel.report(ctx, "C06/COMPONENT", strmodel.explore_component_lines, strmodel.COMPONENT_LAWS,
+                    m.func("cal.Component.content_line").loc(), 5)
     # every line of a serialised component is such a Contentline (E7 on trees)
     treemodel.report(ctx, "C06/EMIT", treemodel.explore_emit,
                      "Component.to_ical emits Contentlines of Contentline.from_parts lines",
